@@ -1,13 +1,14 @@
 CONSTANTS
   Fam = "if"
   NM = 1
-  KindSet = {"obj"}
-  MaxBody = 1
-  MaxInv = 1
-  BodyAlpha = {"a"}
-  InvAlpha = {"a"}
+  KindSet = {"obj", "f0", "f1", "f2", "fv", "f1v"}
+  MaxBody = 3
+  MaxInv = 6
+  BodyAlpha = {"x", "y", "V", "#x", "#y", "#V", "#", "##", "f", "a", "1"}
+  InvAlpha = {"f", "a", "(", ")", ","}
   VarWs = FALSE
   InvHead = TRUE
+  InvBal = TRUE
   NameScheme = 1
   MaxLines = 1
   MaxNest = 1
